@@ -2965,6 +2965,12 @@ fn unify_all(tys: &[(Type, Position)]) -> Result<Type, (Type, Type, Position)> {
 /// (String, Top) -> Top
 /// (Int, String) -> return None
 /// ```
+/// Verification hook: expose `unify` to `verif_hooks`.
+#[cfg(wilfred_garden_verif)]
+pub(crate) fn verif_unify(ty_1: &Type, ty_2: &Type) -> Option<Type> {
+    unify(ty_1, ty_2)
+}
+
 fn unify(ty_1: &Type, ty_2: &Type) -> Option<Type> {
     if matches!(ty_1, Type::Any) || matches!(ty_2, Type::Any) {
         return Some(Type::Any);
